@@ -38,7 +38,7 @@ def nontrivial(req, impl):
 
 
 SPEC = dict(
-    prop='C01', lean_mod='Rivia.Props.C01A,Rivia.Props.C01B,Rivia.Props.C01noop,Rivia.Props.C01R,Rivia.Props.C01S', gen=gen, judge=judge, nontrivial=nontrivial,
+    prop='C01', lean_mod='Rivia.Props.C01A,Rivia.Props.C01B,Rivia.Props.C01noop,Rivia.Props.C01R,Rivia.Props.C01S,Rivia.Props.C01C', gen=gen, judge=judge, nontrivial=nontrivial,
     foreign_classes=('empty_lines_noop', 'sym_kind_specific_clauses', 'sym_malformed', 'moved_link_rel_stale'),
     rule='seeded random histories (length up to the tier bound) over the namespace {a,b,c,é} x depth 3 and over {a,b} x depth 2, arguments absolute / cwd-relative / unclean / garbage, '
          'data incl. empty, multi-byte, invalid UTF-8; after EVERY call the result and the full internal state dump are compared with the Lean model, and the result + abstract tree with the reference '
